@@ -227,11 +227,20 @@ Proof.
   destruct (re_search re_directoryRegexp l); [apply dir_line_regex_iff | apply file_line_regex_iff].
 Qed.
 
+(* an empty line is always fine: it was the (harmful but loadable) empty
+   pattern before the repair, and is skipped since *)
+Lemma ign_line_ok_nil : ign_line_ok [] = true.
+Proof. vm_compute. reflexivity. Qed.
+
 Lemma ign_lines_iff : forall ls, ign_lines ls <> None <-> forallb ign_line_ok ls = true.
 Proof.
-  induction ls as [|l r IH]; cbn [ign_lines forallb].
-  - split; [reflexivity | discriminate].
-  - pose proof (ign_line_ok_iff l) as Hl.
+  induction ls as [|l r IH]; [cbn [ign_lines forallb]; split; [reflexivity | discriminate]|].
+  destruct l as [|c0 l0].
+  - (* an empty line is skipped by [ign_lines] and is always fine *)
+    cbn [ign_lines forallb]. rewrite ign_line_ok_nil. cbn [andb]. exact IH.
+  - rewrite IgnoreFacts.ign_lines_cons by discriminate.
+    generalize (c0 :: l0). clear c0 l0. intro l. cbn [forallb].
+    pose proof (ign_line_ok_iff l) as Hl.
     destruct (ign_line l) as [x|].
     + assert (El : ign_line_ok l = true) by (apply Hl; discriminate). rewrite El. cbn [andb].
       destruct (ign_lines r) as [xs|].
@@ -254,6 +263,17 @@ Proof.
     + split; [intro X; contradiction X; reflexivity|].
       intro E. exfalso. apply (proj2 H E). reflexivity.
   - split; [reflexivity | discriminate].
+Qed.
+
+(* empty lines play no part in whether the file loads (F55: they are skipped;
+   before they were the loadable empty pattern) *)
+Corollary ign_file_ok_blank_line : forall b1 b2,
+  ign_file_ok (Some (b1 ++ [c_nl] ++ [c_nl] ++ b2)) = ign_file_ok (Some (b1 ++ [c_nl] ++ b2)).
+Proof.
+  intros b1 b2. cbn [app ign_file_ok].
+  rewrite (IgnoreFacts.scan_lines_nl_split b1 (c_nl :: b2)), (IgnoreFacts.scan_lines_nl_split b1 b2).
+  rewrite IgnoreFacts.scan_lines_nl_cons, !forallb_app. cbn [forallb].
+  rewrite ign_line_ok_nil. reflexivity.
 Qed.
 
 (* no .goitignore: only the built-in pattern is loaded *)
@@ -1296,6 +1316,7 @@ Print Assumptions reachable_ctx_loads_iff.
 Print Assumptions reachable_ctx_loads_with.
 Print Assumptions ign_line_ok_iff.
 Print Assumptions ign_load_iff.
+Print Assumptions ign_file_ok_blank_line.
 Print Assumptions renderable_loads.
 Print Assumptions loadable_run.
 Print Assumptions history_cfgs_load.
